@@ -347,9 +347,7 @@ def gen_actions(r):
 def gen_hand_client(r, *, hmax=8, wmax=8, allow_stochastic=True, deterministic_obs=False, n_pool=3, min_hw=1, env_seed=None, valid_start=None):
     """a random composition of built-in components with member worlds"""
     types = gen_types(r)
-    colors = gen_colors(r)
-    if 'NONE' not in colors:
-        colors = ['NONE'] + colors  # spaces always contain NONE; objects without colour need it
+    colors = gen_colors(r)  # the declared list may omit NONE: the spaces add it themselves
     unique = r.choice([t for t in UNIQUE_OK if t in types] or [None]) if r.random() < 0.55 else None
     beacon = ('Beacon' in types) and unique != 'Beacon' and r.random() < 0.5
     beacon_colour = r.choice([c for c in colors if c != 'NONE'] or ['NONE']) if beacon else None
